@@ -90,6 +90,7 @@ class Model:
         )
         if len(files) < 20:
             raise AnalysisError("only %d library modules found under %s" % (len(files), self.src_root))
+        modules = {}
         for f in files:
             rel = os.path.relpath(f, self.root)
             if rel in self.overlay:
@@ -111,7 +112,14 @@ class Model:
             mod = os.path.relpath(f, os.path.dirname(self.src_root))[:-3].replace("/", ".")
             if mod.endswith(".__init__"):
                 mod = mod[: -len(".__init__")]
-            self._walk(tree.body, mod, None, mod, rel, None)
+            modules[rel] = mod
+        self.merged_mixins = []
+        if not os.environ.get("VERIF_NO_MIXINS"):
+            from .flatten import merge_private_mixins
+
+            self.merged_mixins = merge_private_mixins(self.trees, modules)
+        for rel, mod in modules.items():
+            self._walk(self.trees[rel][0].body, mod, None, mod, rel, None)
         self._finish_classes()
         self.flattener = None
         # source normalisation (DESIGN.md 11.2a): desugar, inline new helpers, normalise call spelling
@@ -150,7 +158,8 @@ class Model:
                 self._walk(n.body, q, n.name, mod, path, parent_fn)
             elif isinstance(n, (ast.FunctionDef, ast.AsyncFunctionDef)):
                 q = prefix + "." + n.name
-                fn = Func(q, n, cls, mod, path, parent_fn)
+                home = getattr(n, "_home", None)  # a method merged in from a mixin of another module
+                fn = Func(q, n, cls, home[0] if home else mod, home[1] if home else path, parent_fn)
                 if q in self.funcs:
                     # overloads / redefinitions: the last definition wins (as in Python)
                     old = self.funcs[q]
